@@ -169,7 +169,8 @@ def run_one(case, shared=None):
     steps = case["to"] - case["from"]
     # ---- replay of the random / library parts -------------------------------------------------
     if k == "shift" and out is not None:
-        orc["mean"] = float(inj._section_mean)
+        sm = getattr(inj, "_section_mean", None)        # private, optional: the value np.mean returned
+        orc["mean"] = None if sm is None else float(sm)
     if k == "brownian":
         np.random.seed(a["rs"])
         orc["signs"] = [int(np.random.choice([1, -1])) for _ in range(max(0, steps - 1))]
@@ -199,7 +200,7 @@ def run_one(case, shared=None):
                 # _p_distribution of the inner call is not reachable: recompute it from the table really passed on
                 helper(obj2, case["from"], case["to"], colarg(case, a["col"]),
                        dict(table) if table is not None else dict(zip([kv[0] for kv in a["alpha"]], d)))
-                p = [float(v) for v in helper._p_distribution]
+                p = [float(v) for v in getattr(helper, "_p_distribution")]
                 orc["p"] = p
                 if p:
                     np.random.set_state(st)
@@ -386,7 +387,7 @@ def direct_check(case, obs):
             mean /= len(xs)
             delta = Fraction(a["sf"]) * (Fraction(alpha) + mean)
             scale = max([abs(x) for x in xs] + [abs(float(delta))])
-            if abs(Fraction(obs["oracle"]["mean"]) - mean) > Fraction(1, 10**12) * Fraction(max(1.0, max(abs(x) for x in xs))):
+            if obs["oracle"].get("mean") is not None and abs(Fraction(obs["oracle"]["mean"]) - mean) > Fraction(1, 10**12) * Fraction(max(1.0, max(abs(x) for x in xs))):
                 msgs.append(f"shift: np.mean of the window column returned {obs['oracle']['mean']!r}, exact mean {float(mean)!r}")
             for i in win:
                 if not close(out[i][c], float(Fraction(rows[i][c]) + delta), scale):
@@ -570,7 +571,11 @@ def coq_term(case, obs):
     if "__exception__" in obs:
         return "false"
     if case["inj"] == "seq":
-        return " && ".join(f"({coq_term(sub, o)}) && {state_term(sub, o)}" for sub, o in zip(case["calls"], obs["calls"]))
+        parts = []
+        for sub, o in zip(case["calls"], obs["calls"]):
+            t = coq_term(sub, o)
+            parts.append(state_term(sub, o) if t is None else f"({t}) && {state_term(sub, o)}")
+        return " && ".join(parts)
     a, k = case["args"], case["inj"]
     fr, f, t = frame_term(case), G.z(case["from"]), G.z(case["to"])
     exp = exp_term(case, obs)
@@ -591,7 +596,9 @@ def coq_term(case, obs):
                 f"{G.flt(a['knew'])} {exp}")
     if k == "shift":
         alpha = 0.001 if a.get("alpha") is None else a["alpha"]
-        m = orc.get("mean", 0.0)
+        m = orc.get("mean")
+        if m is None:
+            return None     # the mean oracle (np.mean of the window column) is not readable: not model-checked
         return f"chk_shift {fr} {f} {t} {cref(case, a['col'])} {G.flt(a['sf'])} {G.flt(alpha)} {G.flt(m)} {exp}"
     if k == "brownian":
         return f"chk_brownian {fr} {f} {t} {cref(case, a['col'])} {G.flt(a['x0'])} {G.zlist(orc['signs'])} {exp}"
